@@ -10,7 +10,7 @@ import json, os, subprocess, sys, glob, shutil, argparse, re, time, queue, threa
 from concurrent.futures import ThreadPoolExecutor
 ENV = dict(os.environ, GOFLAGS="-mod=mod", GOPROXY="off", GOSUMDB="off", GOTOOLCHAIN="local", CGO_ENABLED="0"); ENV.pop("GOWORK", None)
 BIN = "/verif/checker/bin/vcheck"
-def sh(cmd, **kw): return subprocess.run(cmd, shell=isinstance(cmd, str), stdout=subprocess.PIPE, stderr=subprocess.STDOUT, text=True, env=ENV, **kw)
+def sh(cmd, **kw): return subprocess.run(cmd, shell=isinstance(cmd, str), stdout=subprocess.PIPE, stderr=subprocess.STDOUT, text=True, errors="replace", env=ENV, **kw)
 def main():
     ap = argparse.ArgumentParser(); ap.add_argument("-j", type=int, default=12); ap.add_argument("--only", default=""); ap.add_argument("--all-props", action="store_true"); ap.add_argument("-v", action="store_true")
     a = ap.parse_args()
